@@ -50,8 +50,8 @@ static void hh_append(const u8* p, size_t n)
 }
 static void hc_session(int thorough)
 {
-    static const int levels[] = {3, 4, 5, 6, 7, 8, 9, 9, 3};
-    size_t A = thorough ? (600u << 10) : (300u << 10); u8* arena = xalloc(A + 16); u8* dbuf[2]; LZ4_streamHC_t* hs = LZ4_createStreamHC(); int nb = 2 + (int)rndn(8), b, level = levels[rndn(9)], geometry = (int)rndn(3); size_t pos = 0, maxb = thorough ? 30000 : 12000;
+    static const int levels[] = {3, 4, 5, 6, 7, 8, 9, 9, 3, 1, 2, 10, 11, 12};
+    size_t A = thorough ? (600u << 10) : (300u << 10); u8* arena = xalloc(A + 16); u8* dbuf[2]; LZ4_streamHC_t* hs = LZ4_createStreamHC(); int nb = 2 + (int)rndn(8), b, level = levels[rndn(14)], geometry = (int)rndn(3); size_t pos = 0, maxb = thorough ? 30000 : 12000;
     u8* dict = NULL; size_t dn = 0;
     dbuf[0] = xalloc(maxb + 16); dbuf[1] = xalloc(maxb + 16);
     LZ4_resetStreamHC_fast(hs, level); g_hhn = 0;
@@ -64,7 +64,7 @@ static void hc_session(int thorough)
         else { if (rndp(50)) { if (pos + n > A) break; src = arena + pos; pos += n; } else { pos += 1 + rndn(5000); if (pos + n > A) break; src = arena + pos; pos += n; } }   /* contiguous runs with gaps */
         gen_data(src, n, rndp(40) ? D_LZLIKE : (int)rndn(D_KINDS));
         if (g_hhn >= 16 && n >= 16) { int q, nq = (int)rndn(4); for (q = 0; q < nq; q++) { size_t l = 8 + rndn(200), from = rndn((u32)g_hhn), to; if (l > n) l = n; if (from + l > g_hhn) l = g_hhn - from; to = rndn((u32)(n - l + 1)); memcpy(src + to, g_hh + from, l); } }   /* quotes of the history */
-        if (rndp(20)) { level = levels[rndn(9)]; LZ4_setCompressionLevel(hs, level); }
+        if (rndp(20)) { level = levels[rndn(14)]; LZ4_setCompressionLevel(hs, level); }
         dst = xalloc((size_t)bound + 1); chk = xalloc(n + 1);
         g_hl_n = 0; g_hl_base = src; g_hl_on = 1;
         r = LZ4_compress_HC_continue(hs, (const char*)src, (char*)dst, (int)n, bound); n_calls++; n_stream_blocks++;
@@ -86,7 +86,7 @@ static void hc_session(int thorough)
 int main(int argc, char** argv)
 {
     const char* mode; int thorough, i; u64 seed; u8* data; size_t maxn;
-    static const int levels[] = {3, 4, 5, 6, 7, 8, 9, 9, 3};
+    static const int levels[] = {3, 4, 5, 6, 7, 8, 9, 9, 3, 1, 2, 10, 11, 12};
     if (argc < 6) { fprintf(stderr, "usage: hc mode tier seed casefile crashfile\n"); return 2; }
     mode = argv[1]; thorough = !strcmp(argv[2], "thorough"); seed = strtoull(argv[3], 0, 10);
     harness_init(argv[4], argv[5], seed);
@@ -97,7 +97,7 @@ int main(int argc, char** argv)
         gen_data(data, n, kind);
         if (n > 64 && rndp(30)) { size_t a = rndn((u32)n / 2), l = 1 + rndn((u32)(n - a) / 2), k; for (k = 0; k < l; k++) data[a + k] = data[a]; }      /* a run: pattern analysis */
         if (n > 200 && rndp(30)) { size_t l = 20 + rndn(100), from = rndn((u32)(n / 2)), to = n / 2 + rndn((u32)(n / 2 - l > 0 ? n / 2 - l : 1)); if (to + l <= n) memmove(data + to, data + from, l); }   /* a long repeat */
-        one_case(data, n, levels[rndn(9)]);
+        one_case(data, n, levels[rndn(14)]);
     }
     harness_done();
     stat_u("calls", n_calls); stat_u("hc_stream_sessions", n_sessions); stat_u("hc_stream_blocks", n_stream_blocks); stat_u("hc_loadDictHC", n_loaddict); stat_u("hc_sequences_logged", n_seq); stat_u("hc_best_match_answers", n_best); stat_u("hc_wider_match_answers", n_wider); stat_u("records", g_nrecords); stat_u("cfails", (u64)g_cfails);
